@@ -393,6 +393,8 @@ class Grammar:
                     add_type(k)
             elif c in [bool, int, str, float, list, tuple]:
                 pass
+            elif is_abstract(c):
+                pass  # an abstract class without productions contributes no symbols
             else:
                 assert False
 
